@@ -11,7 +11,6 @@ from ..actors import InjectedFault
 from ..loop import PAUSE, CANCEL
 from ..runner import Outcome
 from ..tools import lib
-from .c10 import Model
 from .common import set_interrupts, COMPONENTS_BASE, COMPONENTS_AIO, run_sim, new_sim, finish_outcome, pick_backend
 
 PID = "C11"
@@ -24,7 +23,8 @@ RULE = (
     "scheduler's. Oracle: currsize<=maxsize after every step; every returned value comes from a successful "
     "invocation for an equal key that completed earlier; at quiescence hits+misses == calls started since the "
     "last clear and misses == invocations started since then; nothing cached from failed/cancelled calls; "
-    "after cache_clear a sequential continuation matches the LRU model. Non-trivial: >=2 invocations "
+    "afterwards a sequential continuation of calls / discards / clears from the contents left behind must be explained "
+    "by the C10 LRU model started from some arrangement of successfully computed keys of the observed currsize. Non-trivial: >=2 invocations "
     "overlapped in time; distinct = distinct (scenario, interleaving) by 64-bit hash."
 )
 COMPONENTS = dict(COMPONENTS_AIO, models=["OrderedDict LRU model of C10 for the sequential continuation"])
@@ -34,6 +34,12 @@ ASSUMPTIONS = [
 ]
 PROBES = ("same_key_overlap", "eviction_while_in_flight", "clear_in_flight", "discard_in_flight",
           "cancel_in_wrapped_call", "failed_call", "hit_served", "full_cache_overlapping_misses")
+
+
+def _arrangements(keys, size):
+    """All orders (oldest first) of all ``size``-subsets of ``keys``"""
+    from itertools import permutations
+    return permutations(keys, size) if size <= len(keys) else ()
 
 
 def gen(ch):
@@ -53,7 +59,8 @@ def gen(ch):
     sc.progs = progs
     sc.fail_serial = ch.draw(8) if ch.chance(1, 4) else None  # the n-th invocation fails
     sc.cancel = ch.draw(sc.ntasks) if ch.chance(1, 3) else None
-    sc.post = [ch.draw(sc.nkeys) for _ in range(ch.between(2, 6))]
+    # sequential continuation from the contents left at quiescence: (kind, key); key nkeys is a fresh one
+    sc.post = [(ch.weighted([8, 2, 1, 1]), ch.draw(sc.nkeys + 1)) for _ in range(ch.between(2, 8))]
     sc.backend = pick_backend(ch, 1, 5)
     return sc
 
@@ -182,6 +189,7 @@ def execute(st, ctx):
                         and not (c0 <= ok_values[value] <= c1) and ok_values[value] < c0:
                     out.probes["hit_served"] = 1
         info = cached.cache_info()
+        n_before_post = len(invs)
         lc = marks["last_clear_tick"]
         # a call / invocation counts for the statistics if it started after the last clear
         n_calls = sum(1 for c in calls if c[6] > lc)
@@ -190,19 +198,26 @@ def execute(st, ctx):
             out.violate("C11.hits_plus_misses_differs_from_calls", sig, dict(describe(), expected_calls=n_calls))
         elif info.misses != n_invs:
             out.violate("C11.misses_differ_from_invocations", sig, dict(describe(), expected_invocations=n_invs))
-        # ---- the cache must still be usable and clean: probe every key, then follow the model
+        # ---- "behaves as C10 from its current contents": the contents at quiescence are not observable, so the
+        # model runs from *every* arrangement of stored keys that is consistent with currsize, and each sequential
+        # step keeps the arrangements that explain what was observed; none left = no C10 cache behaves like this
         post = []
+        info0 = tuple(cached.cache_info())
 
         async def continuation():
-            for key in range(sc.nkeys):
+            for kind, key in sc.post:
                 before = len(invs)
-                v = await cached(key)
-                post.append(("probe", key, v, len(invs) - before))
-            cached.cache_clear()
-            for key in sc.post:
-                before = len(invs)
-                v = await cached(key)
-                post.append(("seq", key, v, len(invs) - before, tuple(cached.cache_info())))
+                if kind == 0:
+                    v = await cached(key)
+                    post.append(("call", key, v, len(invs) - before, tuple(cached.cache_info())))
+                elif kind == 1:
+                    cached.cache_discard(key)
+                    post.append(("discard", key, None, 0, tuple(cached.cache_info())))
+                elif kind == 2:
+                    cached.cache_clear()
+                    post.append(("clear", key, None, 0, tuple(cached.cache_info())))
+                else:
+                    post.append(("info", key, None, 0, tuple(cached.cache_info())))
 
         sc.fail_serial = None
         sim2_task = sim.spawn(continuation(), "post")
@@ -210,22 +225,51 @@ def execute(st, ctx):
         if sim2_task.error is not None or not sim2_task.done:
             out.violate("C11.cache_unusable_after_quiescence", sig, dict(describe(), error=repr(sim2_task.error)))
         else:
-            model = Model(sc.maxsize, False)
-            fresh = [0]
-            for rec in post:
-                if rec[0] == "probe":
-                    _, key, v, ninv = rec
-                    if ninv == 0 and (v not in ok_values or v[1] != key):
-                        out.violate("C11.poisoned_entry", sig, dict(describe(), served=repr(v)))
-                else:
-                    _, key, v, ninv, info2 = rec
-                    hits0 = model.hits
-                    model.call((key,), {}, lambda: None)
-                    was_hit = model.hits > hits0
-                    if (ninv == 0) != was_hit or info2[:2] != (model.hits, model.misses) or info2[3] != len(model.od):
-                        out.violate("C11.continuation_differs_from_model", sig,
-                                    dict(describe(), post=[repr(p) for p in post], model=model.info()))
+            for serial, key, s0, s1, status, _t in invs:
+                if status == "ok":
+                    ok_values[("v", key, serial)] = s1
+            stored_ok = sorted({r[1] for r in invs[:n_before_post] if r[4] == "ok"})
+            cap = sc.maxsize
+            states = set()
+            for perm in _arrangements(stored_ok, info0[3]):
+                states.add(perm)
+            hits, misses = info0[0], info0[1]
+            for step, (what, key, v, ninv, info2) in enumerate(post):
+                nxt = set()
+                if what == "call":
+                    if ninv not in (0, 1) or v not in ok_values or v[1] != key:
+                        out.violate("C11.poisoned_entry", sig, dict(describe(), served=repr(v), post=[repr(p) for p in post]))
                         break
+                    if ninv:
+                        misses += 1
+                    else:
+                        hits += 1
+                    for s_ in states:
+                        if (key in s_) != (ninv == 0):
+                            continue
+                        if key in s_:
+                            s2 = tuple(k for k in s_ if k != key) + (key,)
+                        elif cap == 0:
+                            s2 = s_
+                        else:
+                            s2 = s_ + (key,)
+                            if cap is not None and len(s2) > cap:
+                                s2 = s2[1:]
+                        nxt.add(s2)
+                elif what == "discard":
+                    nxt = {tuple(k for k in s_ if k != key) for s_ in states}
+                elif what == "clear":
+                    nxt = {()}
+                    hits = misses = 0
+                else:
+                    nxt = states
+                nxt = {s_ for s_ in nxt if len(s_) == info2[3]}
+                if not nxt or info2[:2] != (hits, misses):
+                    out.violate("C11.continuation_differs_from_model", sig,
+                                dict(describe(), step=step, info_at_quiescence=info0, post=[repr(p) for p in post],
+                                     possible_contents_before_step=sorted(states), expected_counters=(hits, misses)))
+                    break
+                states = nxt
     if sim.cancel_sent is not None:
         out.fault_free = False
         out.faults["cancel"] = 1
